@@ -45,7 +45,9 @@ RULE = ("one primitive (sum, any, all, min, max, nb_persons, value_from_person, 
         "roles (sub-roles of a parent role, an unbounded role, a max=1 role) absent from some groups, a "
         "second group entity with its own membership; a system whose two group entities SHARE their role keys "
         "(different holders in each) and sequences of role-restricted operations asked of BOTH entities of ONE "
-        "simulation, in both orders; values int / dyadic float / bool with ties, float arrays with +-inf on "
+        "simulation, in both orders; an entity with several roles that each have sub-roles; values int / dyadic "
+        "float / bool with ties, float64 / int64 values that float32 cannot represent (0.1, 1/3, 2**24+1, yyyymmdd "
+        "dates one day apart) for min / max / selections / projector chains / ranks, float arrays with +-inf on "
         "members outside the requested role; a "
         "malformed stream (wrong array size, group index >= count, non-unique holder of a unique role, "
         "negative n, unknown attribute in a projector path). A case is non-trivial when it has at least "
@@ -56,7 +58,13 @@ TRUSTED = ["numpy semantics (bincount, boolean-mask indexing and assignment, whe
            "ties of numpy.argsort are not compared literally: ordered_members_map and get_rank observations are "
            "canonicalised within runs of equal keys before the comparison with the model's stable sort; the "
            "oracle checks the raw answers"]
-ASSUMPTIONS = ["arrays with +-inf: claimed (oracle) for role-restricted sum / any / min / max / all when every non-finite "
+ASSUMPTIONS = ["kinds f64 / i64: the case carries codes of an increasing table of float64 / int64 values containing 0 at "
+               "code 0; the implementation receives the table's values in that dtype, its answers are mapped back to "
+               "codes (an answer that is not exactly a table value is an error observation), model and oracle work on "
+               "the codes -- an order embedding fixing 0, which min / max / selections / ranks commute with (no sums); "
+               "the role tables of the generator, the oracle and the model come from the entity DECLARATIONS, not "
+               "from the Role objects built by the implementation",
+               "arrays with +-inf: claimed (oracle) for role-restricted sum / any / min / max / all when every non-finite "
                "value is held by a person outside the requested role; the model's values are finite integers, so the "
                "model is evaluated on the same array with those entries replaced by 0 -- by sum_spec / min_spec / ... "
                "its answer does not depend on them; a NaN in a result is an error observation",
@@ -77,102 +85,109 @@ ASSUMPTIONS = ["arrays with +-inf: claimed (oracle) for role-restricted sum / an
 
 # ---- the rule systems (entities with roles) ----------------------------------------------
 
-def _system_a():
-    person = build_entity(key="person", plural="persons", label="", is_person=True)
-    household = build_entity(key="household", plural="households", label="", roles=[
-        {"key": "parent", "plural": "parents", "subroles": ["first_parent", "second_parent"]},
-        {"key": "child", "plural": "children"},
-        {"key": "head", "max": 1},
-    ])
-    family = build_entity(key="family", plural="families", label="", containing_entities=["household"], roles=[
-        {"key": "member"},
-        {"key": "chief", "max": 1},
-    ])
-    return person, [household, family]
+# Declarations (plain data).  The role tables used by the generator, the oracle and the Coq
+# model are derived from THESE, not from the Role objects the implementation builds out of
+# them; the Role objects are only looked up (by key) to drive the implementation.
+DECLS = {
+    "A": [
+        dict(key="household", plural="households", roles=[
+            {"key": "parent", "plural": "parents", "subroles": ["first_parent", "second_parent"]},
+            {"key": "child", "plural": "children"},
+            {"key": "head", "max": 1}]),
+        dict(key="family", plural="families", containing_entities=["household"], roles=[
+            {"key": "member"},
+            {"key": "chief", "max": 1}]),
+    ],
+    "B": [
+        dict(key="unit", plural="units", roles=[
+            {"key": "adult", "plural": "adults", "max": 2},
+            {"key": "dependent", "plural": "dependents"}]),
+        dict(key="club", plural="clubs", roles=[
+            {"key": "officer", "subroles": ["president", "treasurer", "secretary"]},
+            {"key": "fellow"}]),
+    ],
+    # Two group entities whose roles SHARE their keys (as famille / menage 'enfants' in
+    # openfisca-france): role keys are unique within one entity only.  (No role is called
+    # "parent" here: Projector instances have a `parent` attribute that Python finds before
+    # Projector.__getattr__, so `x.first_person.family.parent` is the parent PROJECTOR.)
+    "C": [
+        dict(key="family", plural="families", roles=[
+            {"key": "elder", "plural": "elders", "subroles": ["first_elder", "second_elder"]},
+            {"key": "child", "plural": "children"},
+            {"key": "head", "max": 1}]),
+        dict(key="household", plural="households", roles=[
+            {"key": "child", "plural": "children"},
+            {"key": "head", "max": 1},
+            {"key": "elder", "plural": "elders", "max": 2},
+            {"key": "lodger"}]),
+    ],
+    # Several roles WITH sub-roles in one entity (each parent role is held through its own
+    # sub-roles only).
+    "D": [
+        dict(key="clan", plural="clans", roles=[
+            {"key": "elder", "plural": "elders", "subroles": ["first_elder", "second_elder"]},
+            {"key": "guardian", "plural": "guardians", "subroles": ["first_guardian", "second_guardian"]},
+            {"key": "child", "plural": "children"},
+            {"key": "mentor", "plural": "mentors", "subroles": ["tutor", "sponsor", "coach"]}]),
+        dict(key="team", plural="teams", roles=[
+            {"key": "player"},
+            {"key": "lead", "subroles": ["captain", "vice"]},
+            {"key": "staff", "subroles": ["medic", "driver"]}]),
+    ],
+}
 
 
-def _system_b():
-    person = build_entity(key="person", plural="persons", label="", is_person=True)
-    unit = build_entity(key="unit", plural="units", label="", roles=[
-        {"key": "adult", "plural": "adults", "max": 2},
-        {"key": "dependent", "plural": "dependents"},
-    ])
-    club = build_entity(key="club", plural="clubs", label="", roles=[
-        {"key": "officer", "subroles": ["president", "treasurer", "secretary"]},
-        {"key": "fellow"},
-    ])
-    return person, [unit, club]
+class RoleSpec:
+    """A declared role: key, max, rows of its sub-roles."""
 
-
-def _system_c():
-    """Two group entities whose roles SHARE their keys (as famille / menage 'enfants' in
-    openfisca-france): role keys are unique within one entity only.  (No role is called
-    "parent" here: Projector instances have a `parent` attribute that Python finds before
-    Projector.__getattr__, so `x.first_person.family.parent` is the parent PROJECTOR.)"""
-    person = build_entity(key="person", plural="persons", label="", is_person=True)
-    family = build_entity(key="family", plural="families", label="", roles=[
-        {"key": "elder", "plural": "elders", "subroles": ["first_elder", "second_elder"]},
-        {"key": "child", "plural": "children"},
-        {"key": "head", "max": 1},
-    ])
-    household = build_entity(key="household", plural="households", label="", roles=[
-        {"key": "child", "plural": "children"},
-        {"key": "head", "max": 1},
-        {"key": "elder", "plural": "elders", "max": 2},
-        {"key": "lodger"},
-    ])
-    return person, [family, household]
+    def __init__(self, key, mx, subs):
+        self.key, self.max, self.subs = key, mx, subs
 
 
 class System:
-    def __init__(self, name, person, groups):
+    def __init__(self, name, decls):
         self.name = name
-        self.person = person
-        self.groups = groups
-        self.tbs = TaxBenefitSystem([person] + groups)
-        self.rows = []      # per group entity: list of (Role, top)
-        self.flat = []      # per group entity: row numbers of entity.flattened_roles
-        for g in groups:
-            rows, index = [], {}
-            for role in g.roles:
-                index[id(role)] = len(rows)
-                rows.append((role, True))
-                for sub in (role.subroles or ()):
-                    index[id(sub)] = len(rows)
-                    rows.append((sub, False))
+        self.person = build_entity(key="person", plural="persons", label="", is_person=True)
+        self.groups = [build_entity(label="", **d) for d in decls]
+        self.tbs = TaxBenefitSystem([self.person] + self.groups)
+        self.rows = []        # per group entity: list of (RoleSpec, top), sub-roles after their parent
+        self.flat = []        # per group entity: rows a person may hold (a role, or its sub-roles)
+        self.containing = [list(d.get("containing_entities", ())) for d in decls]
+        for d in decls:
+            rows, flat = [], []
+            for desc in d["roles"]:
+                subkeys = list(desc.get("subroles") or ())
+                me = len(rows)
+                subs = [me + 1 + j for j in range(len(subkeys))]
+                rows.append((RoleSpec(desc["key"], len(subkeys) if subkeys else desc.get("max"), subs), True))
+                for sk in subkeys:
+                    rows.append((RoleSpec(sk, 1, []), False))
+                flat += subs or [me]
             self.rows.append(rows)
-            self.flat.append([index[id(r)] for r in g.flattened_roles])
-            g._c10_index = index
+            self.flat.append(flat)
 
     def coq_defs(self):
         out = []
         for k, g in enumerate(self.groups):
-            index = g._c10_index
-            rws = []
-            for role, top in self.rows[k]:
-                subs = [index[id(s)] for s in (role.subroles or ())]
-                rws.append(f"role_row {cstr(str(role.key))} {copt(role.max, cz)} {clist([cz(s) for s in subs])} {cbool(top)}")
-            cont = clist([cstr(str(c)) for c in g.containing_entities])
+            rws = [f"role_row {cstr(spec.key)} {copt(spec.max, cz)} {clist([cz(x) for x in spec.subs])} {cbool(top)}"
+                   for spec, top in self.rows[k]]
+            cont = clist([cstr(str(c)) for c in self.containing[k]])
             out.append(f"Definition ent{self.name}{k} : gentity := Build_gentity {cstr(str(g.key))} {clist(rws)} {cont}.")
         return out
 
-    # role facts for generator and oracle, read from the real Role objects
     def role(self, k, r):
-        return self.rows[k][r][0]
+        """The implementation's Role object for row r (entity.<KEY> attribute)."""
+        return getattr(self.groups[k], self.rows[k][r][0].key.upper())
 
     def role_max(self, k, r):
-        return self.role(k, r).max
+        return self.rows[k][r][0].max
 
     def holds(self, k, r, person_role):
         """Does a person whose role is row `person_role` have role row `r` (itself, or as parent)."""
-        if person_role == r:
-            return True
-        role = self.role(k, r)
-        idx = self.groups[k]._c10_index
-        return any(idx[id(s)] == person_role for s in (role.subroles or ()))
+        return person_role == r or person_role in self.rows[k][r][0].subs
 
 
-SYSTEMS = {"A": System("A", *_system_a()), "B": System("B", *_system_b()), "C": System("C", *_system_c())}
+SYSTEMS = {name: System(name, decls) for name, decls in DECLS.items()}
 
 COQ_HEADER = ("From Verif Require Import Np Group Corr_C10.\nImport ListNotations.\n"
               "Open Scope string_scope.\nOpen Scope Z_scope.\n") + "\n".join(
@@ -202,7 +217,49 @@ def build_simulation(w):
     return sb.build(s.tbs), s
 
 
+class Table:
+    """A value kind whose values are NOT representable in float32 (nor, for some, as small
+    integers).  A case carries CODES: code c stands for values[c + zero], the table is
+    increasing and contains 0 at code 0, so code -> value is an order embedding that maps
+    the defaults (0) to themselves -- all that min / max / selections / ranks depend on.
+    The model and the oracle compute on the codes; a result of the implementation is mapped
+    back to its code and must therefore be EXACTLY one of the table's values."""
+
+    def __init__(self, values, dtype):
+        self.values = sorted(set(values) | {0})
+        self.zero = self.values.index(0)
+        self.dtype = dtype
+        self.codes = list(range(-self.zero, len(self.values) - self.zero))
+        self.index = {fractions.Fraction(v): i - self.zero for i, v in enumerate(self.values)}
+
+    def value(self, code):
+        return self.values[code + self.zero]
+
+    def code(self, x):
+        if isinstance(x, float) and math.isinf(x):
+            return "inf" if x > 0 else "-inf"
+        if isinstance(x, float) and math.isnan(x):
+            raise ArithmeticError("nan in result")
+        try:
+            return self.index[fractions.Fraction(x)]
+        except KeyError:
+            raise ArithmeticError(f"{x!r} is not exactly the value of any person (a value was altered on the way)") from None
+
+
+TABLES = {
+    # float64 amounts: not float32-representable, several within one float32 spacing of each other
+    "f64": Table([-123456789.25, -0.1, 0.1, 0.2, 0.1 + 0.2, 1 / 3, 0.5000000001, 16777216.0, 16777217.0,
+                  16777218.0, 20100315.0, 20100316.0, 123456789.25], numpy.float64),
+    # int64 identifiers / yyyymmdd dates / cents above 2**24
+    "i64": Table([-20100316, -16777217, 16777216, 16777217, 16777218, 16777219, 20100315, 20100316,
+                  20100317, 33554433, 33554435, 2 ** 40 + 1], numpy.int64),
+}
+SEL_KINDS = ["int", "float", "bool", "f64", "i64", "f64", "i64"]   # for operations that select / order values
+
+
 def scale_of(kind):
+    if kind in TABLES:
+        return TABLES[kind]
     return 4 if kind == "float" else 1
 
 
@@ -219,6 +276,9 @@ def finite_vals(vals):
 
 
 def mk_array(vals, kind, wide=True):
+    if kind in TABLES:
+        tb = TABLES[kind]
+        return numpy.array([tb.value(v) for v in vals], dtype=tb.dtype)
     if kind == "float":
         return numpy.array([_fl(v) for v in vals], dtype=numpy.float64 if wide else numpy.float32)
     if kind == "bool":
@@ -227,6 +287,8 @@ def mk_array(vals, kind, wide=True):
 
 
 def mk_default(d, kind):
+    if kind in TABLES:
+        return TABLES[kind].value(d)
     if kind == "float":
         return d / 4
     if kind == "bool":
@@ -235,6 +297,8 @@ def mk_default(d, kind):
 
 
 def enc_value(x, scale):
+    if isinstance(scale, Table):
+        return scale.code(x)
     if isinstance(x, (bool, numpy.bool_)):
         return int(x)
     if isinstance(x, float):
@@ -460,7 +524,7 @@ def walk_path(s, start, path):
             if r is not None:
                 steps.append(("unique", cur, r))
                 cur = None
-            elif name in s.groups[cur].containing_entities:
+            elif name in s.containing[cur]:
                 k2 = next((j for j, gg in enumerate(s.groups) if gg.key == name), None)
                 if k2 is None:
                     return None
@@ -728,7 +792,7 @@ def gen_roles(rng, s, k, ids, count, strict=True):
 
 
 def gen_world(rng, sys_name=None, n=None, strict=True):
-    s = SYSTEMS[sys_name or rng.choice(["A", "A", "B", "C", "C"])]
+    s = SYSTEMS[sys_name or rng.choice(["A", "A", "B", "C", "C", "D", "D"])]
     if n is None:
         n = rng.choice([0, 1, 2, 3, 4, 5, 5, 6, 6, 7, 8, 9, 10, 11, 12, 12])
     groups = []
@@ -744,7 +808,21 @@ def gen_world(rng, sys_name=None, n=None, strict=True):
     return {"sys": s.name, "idt": rng.choice([64, 64, 32]), "groups": groups}, shape0
 
 
+def gen_default(rng, kind):
+    if rng.random() < 0.5:
+        return 0
+    if kind in TABLES:
+        return rng.choice(TABLES[kind].codes)
+    return rng.randrange(0, 2) if kind == "bool" else rng.randrange(-9, 10)
+
+
 def gen_vals(rng, n, kind):
+    if kind in TABLES:
+        codes = TABLES[kind].codes
+        if rng.random() < 0.6:      # neighbours in the table: closer than a float32 can tell apart
+            lo = rng.randrange(len(codes) - 2)
+            codes = codes[lo:lo + rng.choice([2, 3, 4])]
+        return [rng.choice(codes) for _ in range(n)]
     if kind == "bool":
         p = rng.choice([0.2, 0.5, 0.8, 1.0])
         return [1 if rng.random() < p else 0 for _ in range(n)]
@@ -867,7 +945,7 @@ def world_cases(rng, w, shape, heavy=True):
         count = w["groups"][k]["count"]
         kinds = ["int", "float", "bool"]
         for op in ("sum", "min", "max"):
-            kind = rng.choice(kinds)
+            kind = rng.choice(kinds if op == "sum" else SEL_KINDS)
             add({"op": op, "k": k, "kind": kind, "wide": rng.random() < 0.7, "vals": gen_vals(rng, n, kind),
                  "role": pick_role(rng, s, k)})
         for op in ("any", "all"):
@@ -875,24 +953,24 @@ def world_cases(rng, w, shape, heavy=True):
             add({"op": op, "k": k, "kind": kind, "wide": True, "vals": gen_vals(rng, n, kind),
                  "role": pick_role(rng, s, k)})
         add({"op": "nb", "k": k, "role": pick_role(rng, s, k)})
-        kind = rng.choice(kinds)
+        kind = rng.choice(SEL_KINDS)
         add({"op": "vfp", "k": k, "kind": kind, "wide": rng.random() < 0.7, "vals": gen_vals(rng, n, kind),
              "role": pick_role(rng, s, k, unique_only=rng.random() < 0.85, allow_none=False),
-             "default": 0 if rng.random() < 0.5 else (rng.randrange(0, 2) if kind == "bool" else rng.randrange(-9, 10))})
-        kind = rng.choice(kinds)
+             "default": gen_default(rng, kind)})
+        kind = rng.choice(SEL_KINDS)
         add({"op": "nth", "k": k, "kind": kind, "wide": rng.random() < 0.7, "vals": gen_vals(rng, n, kind),
              "n": rng.choice([0, 0, 1, 1, 2, 3, 5, 12]),
-             "default": 0 if rng.random() < 0.5 else (rng.randrange(0, 2) if kind == "bool" else rng.randrange(-9, 10))})
-        kind = rng.choice(kinds)
+             "default": gen_default(rng, kind)})
+        kind = rng.choice(SEL_KINDS)
         add({"op": "first", "k": k, "kind": kind, "wide": True, "vals": gen_vals(rng, n, kind)})
-        kind = rng.choice(kinds)
+        kind = rng.choice(SEL_KINDS)
         add({"op": "project", "k": k, "kind": kind, "wide": True, "vals": gen_vals(rng, count, kind),
              "role": pick_role(rng, s, k)})
         add({"op": "positions", "k": k})
         add({"op": "omm", "k": k})
-        kind = rng.choice(["int", "int", "float"])
-        cond = None if rng.random() < 0.4 else [rng.random() < 0.7 for _ in range(n)]
-        add({"op": "rank", "k": k, "kind": kind, "wide": True, "vals": gen_vals(rng, n, kind), "cond": cond})
+        for kind in (rng.choice(["int", "int", "float"]), rng.choice(["i64", "f64"])):
+            cond = None if rng.random() < 0.4 else [rng.random() < 0.7 for _ in range(n)]
+            add({"op": "rank", "k": k, "kind": kind, "wide": True, "vals": gen_vals(rng, n, kind), "cond": cond})
     # projector chains
     g0, g1 = s.groups[0].key, s.groups[1].key
     uniq = {k: [str(s.role(k, r).key) for r in range(len(s.rows[k])) if s.role_max(k, r) == 1] for k in (0, 1)}
@@ -905,7 +983,7 @@ def world_cases(rng, w, shape, heavy=True):
             paths.append((k, [name]))
             paths.append((None, [s.groups[k].key, name]))
             paths.append((k, [name, s.groups[1 - k].key]))
-        for c in s.groups[k].containing_entities:
+        for c in s.containing[k]:
             paths.append((k, [c]))
             paths.append((k, [c, "first_person"]))
     rng.shuffle(paths)
@@ -913,7 +991,7 @@ def world_cases(rng, w, shape, heavy=True):
         # where does the path end?  (persons after first_person / unique role, else the named group)
         last = path[-1]
         end = next((j for j, g in enumerate(s.groups) if g.key == last), None)
-        kind = rng.choice(["int", "float", "bool"])
+        kind = rng.choice(SEL_KINDS)
         size = n if end is None else w["groups"][end]["count"]
         add({"op": "chain", "start": start, "path": path, "term": 0, "kind": kind, "wide": True,
              "vals": gen_vals(rng, size, kind), "role": None})
